@@ -110,7 +110,8 @@ class DataDir(object):
         path = self._path.joinpath(filename)
         if not path.exists() or overwrite:
             # utf-8 is ascii-compatible
-            with open(path, 'w', encoding='utf-8') as f:
+            # no newline translation: what is written is what is read back
+            with open(path, 'w', encoding='utf-8', newline='') as f:
                 f.write(text)
                 f.flush()
         else:
@@ -122,7 +123,7 @@ class DataDir(object):
 
     def read_txt(self, filename):
         path = self._path.joinpath(filename)
-        with open(path, 'r') as fp:
+        with open(path, 'r', encoding='utf-8', newline='') as fp:
             return fp.read()
 
     def sha256checksums(self):
